@@ -130,6 +130,8 @@ def inst(name, function, sig, kind, prologue, defines=None, props=("C06", "C07")
         d["RET"] = ret
         d["RET_INT"] = ""
     d.update(defines or {})
+    for slot in re.findall(r"\ba_(?:vr1|vr2|vq1|vq2|rowr|rowq|colr|colq|rsetr|rsetq|csetr|csetq|svr|m1|m2)\b", prologue or ""):
+        d["NEED_" + slot] = ""
     e = {"name": name, "function": function, "defines": d,
          "slices": HELPERS + (extra_slices or []) + [slice_of(name, sig, must)],
          "min_obligations": minob, "tier": tier, "mutants": mutants or []}
@@ -147,7 +149,7 @@ def mut(name, slice_name, find, replace, regex=False):
     return m
 
 
-SYNC_MUT = ("== SYNCMODE_AUTO", "!= SYNCMODE_AUTO")
+SYNC_MUT = ("== SYNCMODE_AUTO", "== SYNCMODE_MANUAL")
 
 # ------------------------------------------------------------------------------------------------
 # PUBLIC REAL modifiers
@@ -384,7 +386,7 @@ for fn, code, isrow, low, arg in [("_changeLhsReal", "M_changeLhs", True, True, 
     inst(nm, "SoPlexBase<R>::%s(const VectorBase<R>& %s)" % (fn, arg), "void " + P + "%s(const VectorBase<R>& %s)" % (fn, arg), "int_vec1",
          "const VectorBase<R>& %s = *a_vr1;" % arg, dict(d, CODE=code + "_v"), props=IP, loops=[bs_loop_desc(0, isrow)],
          mutants=[mut("no_lu_clear", nm, *LU_MUT), mut("off_by_one", nm, " - 1; i >= 0", " - 1; i > 0"),
-                  mut("wrong_status", nm, "? SPxSolverBase<R>::%s" % other, "? SPxSolverBase<R>::%s" % on, )])
+                  mut("wrong_status", nm, r"\?\s*SPxSolverBase<R>::%s" % other, "? SPxSolverBase<R>::%s" % on, regex=True)])
 
 for fn, code, isrow, arg in [("_changeRangeReal", "M_changeRange", True, ("lhs", "rhs")), ("_changeBoundsReal", "M_changeBounds", False, ("lower", "upper"))]:
     d = {}
@@ -394,7 +396,7 @@ for fn, code, isrow, arg in [("_changeRangeReal", "M_changeRange", True, ("lhs",
     inst(nm, "SoPlexBase<R>::%s(int i, const R& %s, const R& %s)" % (fn, arg[0], arg[1]),
          "void " + P + "%s(int i, const R& %s, const R& %s)" % (fn, arg[0], arg[1]), "int_side2",
          "int i = a_i; const R& %s = a_r1; const R& %s = a_r2;" % arg, dict(d, CODE=code + "_i"), props=IP,
-         mutants=[mut("no_lu_clear", nm, *LU_MUT), mut("wrong_status", nm, "? SPxSolverBase<R>::ON_UPPER", "? SPxSolverBase<R>::ON_LOWER"),
+         mutants=[mut("no_lu_clear", nm, *LU_MUT), mut("wrong_status", nm, r"\?\s*SPxSolverBase<R>::ON_UPPER", "? SPxSolverBase<R>::ON_LOWER", regex=True),
                   mut("no_else", nm, "else if(_basisStatus", "else if(false && _basisStatus")])
     nm = "int" + fn + "_v"
     inst(nm, "SoPlexBase<R>::%s(const VectorBase<R>& %s, const VectorBase<R>& %s)" % (fn, arg[0], arg[1]),
@@ -402,7 +404,7 @@ for fn, code, isrow, arg in [("_changeRangeReal", "M_changeRange", True, ("lhs",
          "const VectorBase<R>& %s = *a_vr1; const VectorBase<R>& %s = *a_vr2;" % arg, dict(d, CODE=code + "_v"), props=IP,
          loops=[bs_loop_desc(0, isrow)],
          mutants=[mut("no_lu_clear", nm, *LU_MUT), mut("off_by_one", nm, " - 1; i >= 0", " - 1; i > 0"),
-                  mut("wrong_status", nm, "? SPxSolverBase<R>::ON_UPPER", "? SPxSolverBase<R>::ON_LOWER")])
+                  mut("wrong_status", nm, r"\?\s*SPxSolverBase<R>::ON_UPPER", "? SPxSolverBase<R>::ON_LOWER", regex=True)])
 
 inst("int_addRowReal", "SoPlexBase<R>::_addRowReal(const LPRowBase<R>& lprow)", "void " + P + "_addRowReal(const LPRowBase<R>& lprow)", "int_add",
      "const LPRowBase<R>& lprow = *a_rowr;", {"ADD_ROW": "", "ISROW": "", "CODE": "M_addRow"}, props=IP,
